@@ -350,7 +350,8 @@ class PDFStandardSecurityHandler:
         param: Dict[str, Any],
         password: str = "",
     ) -> None:
-        self.docid = docid
+        # only the first element is used; tolerate a missing or malformed /ID
+        self.docid = [str_value(x) for x in docid] or [b""]
         self.param = param
         self.password = password
         self.init()
